@@ -460,5 +460,96 @@ func AnnotationCases() []*Case {
 		f.Add(obj("Foo", &Field{Name: "parentId", T: T(TKeyID62), Attrs: []string{`foreign = "other.v1.Parent"`}}))
 		add("foreign-key", f)
 	}
+	{
+		// a nested type and a top-level type with the same short name
+		f := file("t/v1", "a")
+		f.Add(obj("Inner", fld("top", T(TBool))))
+		f.Add(obj("Foo", fld("inner", InlineOf(obj("", fld("nested", T(TString))))), fld("status", InlineOf(enumD("", "A", "B")))))
+		f.Add(enumD("Status", "X", "Y", "Z"))
+		f.Add(obj("Bar", fld("inner", InlineOf(obj("", fld("other", T(TInt32)))))))
+		add("nested-and-top-level-same-name", f)
+	}
+	return out
+}
+
+// ShapeCases: shapes that stress type-name printing and comments.
+func ShapeCases() []*Case {
+	var out []*Case
+	add := func(id string, files ...*File) {
+		out = append(out, &Case{ID: "shape:" + id, Family: "shapes", Coord: "shapes|" + id, P: &Program{Files: files}})
+	}
+	{
+		f := file("t/v1", "a")
+		d := obj("Node", fld("name", T(TString)))
+		d.Fields = append(d.Fields, fld("child", RefTo(d, "")), fld("kids", ArrayOf(RefTo(d, ""))), fld("byName", MapOf(RefTo(d, ""))))
+		f.Add(d)
+		add("self-reference", f)
+	}
+	{
+		f := file("t/v1", "a")
+		a := obj("Alpha")
+		b := obj("Beta", fld("a", RefTo(a, "")))
+		a.Fields = []*Field{fld("b", RefTo(b, ""))}
+		f.Add(a)
+		f.Add(b)
+		add("mutual-reference", f)
+	}
+	{
+		// a nested type shadows a top-level type of the same name
+		f := file("t/v1", "a")
+		top := obj("Inner", fld("top", T(TBool)))
+		f.Add(top)
+		f.Add(obj("Foo", fld("inner", InlineOf(obj("", fld("nested", T(TString))))), fld("outer", RefTo(top, ""))))
+		add("nested-shadows-top-level", f)
+	}
+	{
+		// nested enum shadows a top-level enum referenced by a sibling field
+		f := file("t/v1", "a")
+		st := enumD("Status", "ON", "OFF")
+		f.Add(st)
+		f.Add(obj("Foo", fld("previous", RefTo(st, "")), fld("status", InlineOf(enumD("", "A", "B")))))
+		add("nested-enum-shadows-top-level", f)
+	}
+	{
+		// package a.b.v1 refers to b.v1
+		b := file("b/v1", "z")
+		target := obj("Target", fld("x", T(TString)))
+		b.Add(target)
+		a := file("a/b/v1", "a")
+		a.Imports = []Import{{Pkg: "b.v1"}}
+		a.Add(obj("User", fld("t", RefTo(target, "b.v1"))))
+		add("package-suffix-overlap", a, b)
+	}
+	{
+		f := file("t/v1", "a")
+		other := obj("Other", fld("x", T(TString)))
+		f.Add(other)
+		f.Add(obj("Foo",
+			&Field{Name: "optObj", T: RefTo(other, ""), Optional: true, UseMark: true},
+			&Field{Name: "optInline", T: InlineOf(obj("", fld("y", T(TInt32)))), Optional: true},
+			&Field{Name: "optDate", T: T(TDate), Optional: true, UseMark: true},
+			&Field{Name: "optTs", T: T(TTimestamp), Optional: true},
+			&Field{Name: "optAny", T: T(TAny), Optional: true},
+			&Field{Name: "optStr", T: T(TString), Optional: true, UseMark: true},
+		))
+		add("optional-message-fields", f)
+	}
+	{
+		f := file("t/v1", "a")
+		d := obj("Foo", &Field{Name: "name", T: T(TString), Desc: "trailing \"quotes\" and \\ backslash"})
+		d.Desc = []string{"First paragraph", "continues", "", "Second paragraph", "", "Third with unicode é 日本 😀 and */ /* // markers"}
+		f.Add(d)
+		e := enumD("Kind", "ONE", "TWO")
+		e.Desc = []string{"Enum doc", "", "para two"}
+		e.Options[1].Desc = "second option"
+		f.Add(e)
+		f.Add(&Service{Name: "Foo", BasePath: "/t/v1", Methods: []*Method{{Name: "Get", Verb: "GET", Path: "/x", HasResponse: true}}})
+		add("descriptions", f)
+	}
+	{
+		f := file("t/v1", "a")
+		f.Add(obj("Foo", &Field{Name: "val", T: T(TString), Attrs: []string{`rules.pattern = "^a\\\\d+ \\"q\\" é😀$"`}}))
+		add("pattern-with-escapes", f)
+	}
 	return out
 }
